@@ -16,6 +16,22 @@ CHECKS = {
           'worker clear/sleep(0)/peek/wait window the suite cannot reach.',
           'gevent loop contract (FIFO ready callbacks, timers noticed when the queue drains); one exact virtual clock; '
           'off-tick deadlines only', '3/C10'),
+  'C17': ('E', 'exploration',
+          'bounded-exhaustive enumeration of completion orders on the real AsyncResult combinators with a per-step reference comparison',
+          'The full product of input count (<=5 quick, <=6 thorough), success/failure assignment, already-complete subset and completion '
+          'order is run through the real WhenAll/WhenAny (nesting/failing level/order for Unwrap; source x timing x continuation for '
+          'ContinueWith/Map) and compared with a reference after every completion step, so results that change after completing are caught.',
+          'real gevent AsyncResult semantics on the virtual loop; zero-input combinators outside the alphabet', '3/C17'),
+  'C18': ('E', 'exploration',
+          'bounded-exhaustive enumeration of metric update sequences and sample streams against a dict reference model',
+          'Every sequence of <=3 (quick) / <=4 (thorough) updates over 40 operations, each from a freshly constructed Source, and every '
+          'sample stream up to length 6/8 with every reservoir coin outcome, run on the real VarzReceiver/VarzAggregator.',
+          'reservoir size lowered to 3; virtual clock', '3/C18'),
+  'C20': ('E', 'exploration',
+          'bounded-exhaustive enumeration of interface shapes, call forms, arguments and URIs on the real proxy builder and URI parser',
+          'Every (interface shape, method name, call form, argument tuple, dispatcher answer) combination from the stated alphabets and every '
+          'ordered tcp endpoint selection / zk combination / foreign scheme is executed and compared with the expected dispatch.',
+          'public method = no leading underscore', '3/C20'),
 }
 
 NOT_BUILT = 'check not built yet in this session (planned, see DESIGN.md section 3)'
